@@ -6,7 +6,7 @@ VERIF = os.path.dirname(os.path.dirname(os.path.abspath(__file__)))
 SCHEMA = '/root/.vp/EVIDENCE.schema.json'
 
 
-def write(prop, tier, seed, spec, proof, bounded, nviol, known_seen, undecided, wall, head, dirty):
+def write(prop, tier, seed, spec, proof, bounded, nviol, known_seen, undecided, wall, head, dirty, sweep=None):
     cov = {}
     assumptions = []
     level = spec['level']
@@ -41,6 +41,13 @@ def write(prop, tier, seed, spec, proof, bounded, nviol, known_seen, undecided, 
             cov.setdefault('evaluations', proof['obligations'])
             cov.setdefault('distinct_nontrivial', proof['obligations'])
         assumptions.extend(proof.get('assumptions', []))
+    if sweep:
+        cov['contract_sweep'] = {
+            'label': 'every contract of the unit executed on the real functions with generated arguments '
+                     '(dynamic cross-check of contracts and verifier; bounded, never counted as proved)',
+            'evaluations': sweep.get('evaluations'), 'skipped_by_precondition': sweep.get('skipped'),
+            'per_function': sweep.get('per_target'), 'failures': len(sweep.get('failures', [])),
+            'not_generated': sweep.get('unsupported')}
     cov['explanation'] = spec.get('explanation') or (
         'Deciding step: ' + ('proof obligations generated from the real source and discharged by SMT solvers'
                              if proof and proof['obligations'] else 'bounded stand-in only')
